@@ -17,7 +17,7 @@ mon.SPECS[PID] = mon.Spec(PID, ("lifecycle", "exceptions"), RULE, [
     "handled / multiple concurrent failures inside fan-outs belong to C06",
     "record immutability is read from the executions store after every scheduler step (STANDARD machines); EXPRESS executions are checked on notifications only",
     "one run in five goes on, after quiescence, until the expiry back stop of the join state (execution_ttl set to 40 s) and 130 s beyond, with the monitor still attached",
-], cfg=CFG, variants=lambda: __import__("hypothesis").strategies.sampled_from([{}, {}, {"past_expiry": 40}]))
+], cfg=CFG, variants=lambda: __import__("hypothesis").strategies.sampled_from([{}, {}, {"past_expiry": 40}, {"past_expiry": 40, "stragglers_past_expiry": True}]))
 
 
 def main(tier, seed, replay=None):
